@@ -16,6 +16,9 @@ NONE_LIKE = (None, "None", "```(None)```")
 
 
 def same_default(v, w):
+    """v' is compared after the consumer's unquote (interpolate_defaults stores unquote(default))"""
+    if isinstance(w, str):
+        w = impl().pure_utils.unquote(w)
     if type(v) is type(w) and v == w:
         if isinstance(v, float):
             return repr(v) == repr(w)
@@ -57,7 +60,7 @@ def impl_holds(pt):
                 return False, "sentence not written as prose + ' Defaults to ' + value: %r" % line
         else:
             vv = None if v == "```(None)```" else v
-            shown = pu.quote(vv) if du.needs_quoting(t) else vv
+            shown = pu.quote(vv) if isinstance(vv, (str, type(None))) and du.needs_quoting(t) else vv
             line = "{} {}{}".format(d, ANN[a], shown)
     except Exception as e:  # noqa
         return False, "writing the sentence raised %s" % type(e).__name__
@@ -75,6 +78,12 @@ def impl_holds(pt):
     return True, ""
 
 
+def check_case(case):
+    if "a" in case:
+        return impl_holds(case)
+    return True, ""
+
+
 def oracle(rng, tier):
     n = 1500 if tier == "quick" else 40000
     pts = gen_points(rng, n)
@@ -86,8 +95,14 @@ def oracle(rng, tier):
     disagree = []
     for p, c, mh in zip(pts, classes, mholds):
         ce = loads(c)
+        if ce == "out-of-domain":
+            hist["out-of-domain"] += 1
+            continue
         cls = None if ce == "none" else unhx(ce[1])
         ok, what = impl_holds(p)
+        if cls == "unmodelled":
+            hist["skipped-unmodelled:" + ("holds" if ok else "fails")] += 1
+            continue
         hist[("holds" if ok else "fails") + ":" + (cls or "in-guard")] += 1
         key = dumps([p["a"], p["d"], enc_pyval(p["v"]), opt(p["t"])])
         if cls is None and p["d"] and key not in seen:
